@@ -367,7 +367,7 @@ theorem lookup_map_key {α β : Type} (key : α → String) (val : α → β) :
     the value of the source field of the same id for the linked ones, nothing for the others. -/
 theorem convertModel_spec (allow : String → Bool) (co : String → V → W) (dst : InputShape) (src : OutputShape)
     (obj : List (String × V)) (hwf : ParamsWF dst) (hids : (dst.fields.map (·.id)).Nodup)
-    (hobj : ∀ g ∈ src.fields, (obj.lookup g.id).isSome) :
+    (hobj : ∀ f ∈ dst.fields, linkedIn src f.id = true → (obj.lookup f.id).isSome) :
     (dst.fields.any (Refuses allow src) = true → convertModel allow co dst src obj = .noConverter) ∧
     (dst.fields.any (Refuses allow src) = false →
       ∃ args, convertModel allow co dst src obj = .ok args ∧
@@ -384,15 +384,12 @@ theorem convertModel_spec (allow : String → Bool) (co : String → V → W) (d
         (fun l => l.2.accessFails obj) = false := by
       rw [List.any_eq_false]
       intro l hl
-      obtain ⟨f, _, rfl⟩ := List.mem_map.mp hl
+      obtain ⟨f, hfm, rfl⟩ := List.mem_map.mp hl
       cases hlk : linkedIn src f.id
       · rw [fetchLinking_unlinked hlk]
         cases f.required <;> cases allow f.id <;> simp [Linking.accessFails]
       · rw [fetchLinking_linked hlk]
-        simp only [linkedIn, List.any_eq_true, beq_iff_eq] at hlk
-        obtain ⟨g, hg, hgf⟩ := hlk
-        have := hobj g hg
-        rw [hgf] at this
+        have := hobj f hfm hlk
         simp only [Linking.accessFails]
         cases ho : obj.lookup f.id with
         | none => simp [ho] at this
@@ -427,6 +424,23 @@ theorem convertModel_spec (allow : String → Bool) (co : String → V → W) (d
       rw [← hfid, hlook f hf]
     rw [hcongr]
     exact hwf.fields.filterMap _
+
+/-- a linked source field the object does not hold (a TypedDict source with an absent `NotRequired`
+    key): the generated converter raises, whatever the destination's parameter list looks like -/
+theorem convertModel_callError (allow : String → Bool) (co : String → V → W) (dst : InputShape) (src : OutputShape)
+    (obj : List (String × V)) (hr : dst.fields.any (Refuses allow src) = false)
+    (f : InField) (hf : f ∈ dst.fields) (hl : linkedIn src f.id = true) (ha : obj.lookup f.id = none) :
+    convertModel allow co dst src obj = .callError := by
+  have hany : (dst.fields.map fun f => (f.id, fetchLinking allow src f)).any (fun l => l.2.isRefused)
+      = dst.fields.any (Refuses allow src) := by
+    simp [List.any_map, Function.comp_def, fetchLinking_isRefused]
+  have hacc : (dst.fields.map fun f => (f.id, fetchLinking allow src f)).any
+      (fun l => l.2.accessFails obj) = true := by
+    rw [List.any_eq_true]
+    refine ⟨(f.id, fetchLinking allow src f), List.mem_map_of_mem hf, ?_⟩
+    rw [fetchLinking_linked hl]
+    simp [Linking.accessFails, ha]
+  simp [convertModel, hany, hr, hacc]
 
 /-! ### from "the same multiset of arguments" to "the same argument for every field" -/
 
